@@ -33,6 +33,10 @@ pub const SITES: &[(&str, usize, &str)] = &[
     ("random_choices-weighted", 3, "([1, 2, 3].random_choices(2, [0.2, 0.3, 0.5]).len() + {K} - 2)"),
     ("sample-long", 3, "(range(1000).sample(2).len() + {K} - 2)"),
     ("sample-long-many", 3, "(range(100000).sample(40).len() + {K} - 40)"),
+    ("sample-zero", 3, "(range(10).sample(0).len() + {K})"),
+    ("disc-sample-zero", 3, "(uniform_distribution(1, 6).sample(0).len() + {K})"),
+    ("cont-sample-zero", 3, "(normal_distribution(0.0, 1.0).sample(0).len() + {K})"),
+    ("random_choices-zero", 3, "([1, 2, 3].random_choices(0).len() + {K})"),
     ("sample-counts", 3, "([1, 2, 3].sample(2, [1, 1, 1]).len() + {K} - 2)"),
     ("regex", 4, "if(regex(\"a+b\").search(\"xaab\").has_value(), {K}, {K})"),
     ("sleep", 5, "sleep(seconds(0.25), {K})"),
@@ -172,6 +176,7 @@ fn effects(log: &[Ev]) -> Vec<String> {
         .filter_map(|e| match e {
             Ev::Perm { id, ok } => Some(format!("perm:{id}:{ok}")),
             Ev::Write { len, res } => Some(format!("write:{len}:{res}")),
+            Ev::Flush => Some("flush".to_string()),
             Ev::UnixRead => Some("unix".to_string()),
             Ev::Sleep(ns) => Some(format!("sleep:{ns}")),
             Ev::RngNew => Some("rng-new".to_string()),
@@ -342,8 +347,8 @@ fn seam_invariants(sc: &Scenario, r: &RunResult) -> Vec<(String, String)> {
     if !is_on(&sc.effective_perms(), 2) && other_lines > 0 {
         v.push(("debug wrote although PRINT_DEBUG is forbidden".to_string(), format!("output {text:?}")));
     }
-    if !is_on(&sc.effective_perms(), 1) && !is_on(&sc.effective_perms(), 2) && c.writes > 0 {
-        v.push(("writer touched although PRINT and PRINT_DEBUG are forbidden".to_string(), format!("{} writes", c.writes)));
+    if !is_on(&sc.effective_perms(), 1) && !is_on(&sc.effective_perms(), 2) && (c.writes > 0 || c.flushes > 0) {
+        v.push(("writer touched although PRINT and PRINT_DEBUG are forbidden".to_string(), format!("{} writes, {} flushes", c.writes, c.flushes)));
     }
     v
 }
